@@ -292,6 +292,13 @@ class Abstract(T):
         return "Abstract(%s)" % self.name
 
 
+class _RngT(T):
+    kind = "rng"
+
+
+Rng = _RngT()  # a numpy RandomState: every draw is an arbitrary value of its documented range
+
+
 class Func(T):
     """an uninterpreted pure function value (e.g. a user callable)"""
 
